@@ -746,4 +746,46 @@ def R7_overrides_through_extend(ctx):
     ctx.check(n >= 1, "extend-site", "no call that hands the collected feature list to the state model was found", None)
 
 
-RULES = [R1_slot_table, R2_growth, R3_dense_index, R4_state_model, R5_overrides, R6_units, R7_overrides_through_extend]
+def R8_configured_names(ctx):
+    """C11.R8 the configured features keep the names they were given.  CompactOrderedHashMap::new is the one constructor of the
+    container that relies on its input having distinct keys (with a repeated key it numbers the slots with gaps: len() = n-1, slot 0
+    never assigned, iter()/initial_state() empty).  The configuration reaches it through TryFrom<&Value> for StateModel, where the
+    names are the keys of one JSON object — distinct by construction *as long as they are passed on unchanged*."""
+    F = ctx.F
+    ctx.rule("C11.R8", "TryFrom<&Value> for StateModel hands StateModel::new / From<Vec<..>> the list [(key_i, decode(value_i))] of the configuration object's own entries: the name of a feature is the object key itself (any normalisation — trim, lower-casing — can make two distinct keys collide in CompactOrderedHashMap::new, which does not de-duplicate), and its declaration is decoded from the value under that same key", floor=2)
+    cands = [p for p in F.bodies if re.search(r"StateModel as std::convert::TryFrom<&('\w+ )?serde_json::value::Value>>::try_from$", p)]
+    if len(cands) != 1:
+        raise AnchorMissing("TryFrom<&serde_json::Value> for StateModel")
+    b = F.bodies[cands[0]]
+    tm = Terms(b)
+    sinks = [c for c in b.calls_deep() if re.search(r"StateModel::new$|StateModel as std::convert::From<std::vec::Vec<\(std::string::String, .*StateFeature\)>>>::from$", c.callee or "")]
+    if not ctx.check(len(sinks) == 1, "config:one-constructor", "expected exactly one StateModel::new / From<Vec<(String, StateFeature)>> in try_from, found %d" % len(sinks), b.where()):
+        return
+    c = sinks[0]
+    lst = c.arg_terms[0] if isinstance(c, VirtualCallSite) else tm.operand(c.args[0], c.bb)
+    sf = sequence_form(F, b, norm_adaptors(F, deep_strip(clean(lst))))
+    if sf is None:
+        sf = sequence_form(F, b, clean(lst))
+    elem = None
+    if sf is not None:
+        alts = list(sf[0][1]) if sf[0][0] == "phi" else [sf[0]]
+        oks = [a for a in alts if not is_err_value(a) and not (a[0] == "call" and "from_residual" in a[1])]
+        if len(oks) == 1:
+            e = oks[0]
+            if e[0] == "agg" and e[2] == "Ok":
+                e = dict(e[3]).get("0")
+            elem = clean(e) if e is not None else None
+    obj = None
+    ok_name = ok_val = False
+    if elem is not None and elem[0] == "tuple" and len(elem[1]) == 2:
+        n, v = elem[1]
+        if n[0] == "field" and n[2] == "0" and n[1][0] == "at":
+            obj = n[1][1]
+            ok_name = obj[0] == "call" and obj[1].endswith("Value::as_object") and clean(obj[2][0]) == ("arg", 1)
+            ent_val = ("field", n[1], "1")
+            ok_val = contains(v, lambda x: x == ent_val) and not contains(v, lambda x: x[0] == "at" and x != n[1])
+    ctx.check(ok_name, "config:name=object-key", "the name of a configured feature is not the key of its entry in the configuration object, unchanged: %s" % (short(elem)[:200] if elem else "unreadable list"), c.where(), detail="(key_i, ..) for entry i of json.as_object()")
+    ctx.check(ok_val, "config:feature=value-under-that-key", "the declaration of a configured feature is not decoded from the value stored under its own key", c.where(), detail="(.., from_value(value_i))")
+
+
+RULES = [R1_slot_table, R2_growth, R3_dense_index, R4_state_model, R5_overrides, R6_units, R7_overrides_through_extend, R8_configured_names]
